@@ -160,7 +160,10 @@ func (tc tcase) String() string {
 	return sb.String()
 }
 
-var firsts = []string{"required", "required", "optional", "among", "among", "absent-others", "absent-empty", "missing-eof", "missing-error"}
+var firsts = []string{"required", "required", "optional", "among", "among", "absent-others", "absent-empty", "missing-eof", "missing-error",
+	// lists the client cannot use: white space, text or a comment inside the
+	// list, a list in a foreign namespace, another stream-level element in its place
+	"defective-space", "defective-text", "defective-comment", "defective-foreign-list", "defective-other-stream-element"}
 var answers = []string{"proceed", "proceed", "proceed", "failure", "wrongns", "unknown", "text", "garbage", "eof"}
 var afters = []string{"tls", "tls", "tls-inject", "tls-inject", "garbage"}
 
@@ -368,6 +371,16 @@ func runSessionNeg(sc sessionCase, feature xmpp.StreamFeature, forceTee *bool, s
 			feedClear(hdr1 + `<stream:error><host-unknown xmlns="urn:ietf:params:xml:ns:xmpp-streams"/></stream:error>`)
 			conn.CloseInput()
 			return
+		case "defective-space":
+			feedClear(hdr1 + `<stream:features>` + "\n  " + starttls + "\n" + `</stream:features>`)
+		case "defective-text":
+			feedClear(hdr1 + `<stream:features>` + starttls + `hello` + mechs + `</stream:features>`)
+		case "defective-comment":
+			feedClear(hdr1 + `<stream:features><!-- features -->` + starttls + `</stream:features>`)
+		case "defective-foreign-list":
+			feedClear(hdr1 + `<features xmlns="urn:verif:notstream">` + starttls + `</features>`)
+		case "defective-other-stream-element":
+			feedClear(hdr1 + `<stream:whatever>` + starttls + `</stream:whatever>`)
 		}
 		// 3. what does the client send next (in clear)?
 		mark := len(acc)
